@@ -18,7 +18,7 @@ def l2_part(run, exe_unused, results, env):
              ("c11_past", dict(tree=N.T((1, 0, N.NONE)), NN=1, MaxNow=0, progs=[[N.WAIT(1, -1), N.WAIT(1)], [N.NOTIFY(1)]]))]
     ncfgs += [(n, c) for n, (props, t, c) in N.CONF.items() if "C11" in props and (t == "q" or run.tier == "thorough")]
     ncf = [(n, dict(N.note_conf(c), _c=c)) for n, c in ncfgs]
-    l2lib.run_family(run, exe2, "Note", "C11", ncf, lambda conf: N.consts_of(conf["_c"]), {"NoStuck"}, {"O-ret", "O-mem", "O-prog", "O-lin"})
+    l2lib.run_family(run, exe2, "Note", "C11", ncf, lambda conf: N.consts_of(conf["_c"]), {"NoStuck", "RetHonest", "NoDeadRecord"}, {"O-ret", "O-mem", "O-prog", "O-lin"})
     exer = build("h_l2r")
     l2lib.random_runs(run, exer, "Counter", ccfgs, 1000 if run.tier == "quick" else 30000, "C11", {"O-ret", "O-mem", "O-prog", "O-lin"})
     l2lib.random_runs(run, exer, "Note", ncf, 1000 if run.tier == "quick" else 30000, "C11", {"O-ret", "O-mem", "O-prog", "O-lin"})
@@ -27,5 +27,5 @@ def l2_part(run, exe_unused, results, env):
 def main(tier, replay=None):
     return mu_check("C11", tier, replay, post=l2_part,
                     extra_rule="; objects: condition variables (with the caller's mutex, L1), counters (L2, one object per call) and notes (L2, 1..5 notes per call: "
-                               "on-stack records for up to 4 objects and the heap bookkeeping path for 5); calls mixing kinds in one call are not modelled",
+                               "on-stack records for up to 4 objects and the heap bookkeeping path for 5; notes and a counter mixed in one call: configurations x_*); a cv mixed with other kinds in one call is not modelled",
                     extra_assume=["a single nsync_wait_n call waits on objects of one kind in the specifications (cv | counter | 1..5 notes); kinds are not mixed within one call"])
